@@ -32,6 +32,11 @@
 //!                (names descending, distinct balances, one order per instrument) and a cancel response are indexed
 //!                and applied with `EngineState::update_from_account`; the state is read back *by internal name*.
 //!
+//! Second hardening round: NEAR-MISS spellings of every menu name (case, separators, blanks, one character more or
+//! less - `near_misses`) through the map's name lookups and the single-name inbound kinds; own names under EVERY
+//! `ExchangeId` there is (sibling products of one venue, `Simulated`, `Other` - `ALL_IDS`); a third, LARGE menu ("L":
+//! 310 instruments over 72 assets, global indices beyond 255) swept as one configuration through every layer.
+//!
 //! Ground truth comes from the *definitions* (exchange name of an instrument / asset) and from
 //! `IndexedInstruments::find_*_index(exchange, internal name)` for "the engine index of that entity" (that
 //! table is C11's subject). Rules, each from a clause of the statement:
@@ -145,9 +150,48 @@ impl Truth {
 }
 
 /// Name pools: every exchange name that occurs anywhere in the menu (so own and foreign ones) plus an unknown.
+/// `*_near`: NEAR MISSES of the menu names - spellings that differ from a menu name only by case, by a separator
+/// (`-`, `_`, `/`, blank removed / exchanged / inserted), by surrounding blanks or by one character at either end.
+/// A name is an opaque key, so a near miss that is not itself a name of the exchange must not translate. The near
+/// pools are swept through the map's name lookups and the single-name inbound kinds only (a lookup that
+/// normalises names shows there); the main pools feed the combinatorial sweeps.
 struct Pools {
     inst: Vec<InstrumentNameExchange>,
     asset: Vec<AssetNameExchange>,
+    inst_near: Vec<InstrumentNameExchange>,
+    asset_near: Vec<AssetNameExchange>,
+}
+
+fn near_misses(name: &str) -> Vec<String> {
+    const SEPS: [char; 4] = ['-', '_', '/', ' '];
+    let mut v = vec![
+        name.to_lowercase(),
+        name.to_uppercase(),
+        name.chars().map(|c| if c.is_uppercase() { c.to_ascii_lowercase() } else { c.to_ascii_uppercase() }).collect(),
+        name.chars().filter(|c| !SEPS.contains(c)).collect(),
+        format!(" {name}"),
+        format!("{name} "),
+        format!("{name}X"),
+        format!("X{name}"),
+    ];
+    for (from, to) in [('-', '_'), ('_', '-'), ('/', '-'), ('/', '_'), ('-', '/'), ('_', '/')] {
+        v.push(name.replace(from, &to.to_string()));
+    }
+    let n = name.chars().count();
+    if n > 1 {
+        v.push(name.chars().take(n - 1).collect());
+        v.push(name.chars().skip(1).collect());
+    }
+    for at in [1usize, 3, 4] {
+        if n > at {
+            for sep in ['-', '_', '/'] {
+                let (a, b): (String, String) = (name.chars().take(at).collect(), name.chars().skip(at).collect());
+                v.push(format!("{a}{sep}{b}"));
+            }
+        }
+    }
+    v.retain(|s| !s.is_empty() && s != name);
+    v
 }
 
 fn pools(menu: &[Def]) -> Pools {
@@ -155,11 +199,27 @@ fn pools(menu: &[Def]) -> Pools {
     inst.push("NOPE".into());
     let mut asset: Vec<String> = menu.iter().flat_map(|d| roles(d).into_iter().map(|(_, a)| a.name_exchange.name().to_string())).sorted().dedup().collect();
     asset.push("NOPE".into());
+    let near = |main: &[String]| -> Vec<String> { main.iter().flat_map(|n| near_misses(n)).filter(|s| !main.contains(s)).sorted().dedup().collect() };
     Pools {
+        inst_near: near(&inst).iter().map(|s| InstrumentNameExchange::new(s.as_str())).collect(),
+        asset_near: near(&asset).iter().map(|s| AssetNameExchange::new(s.as_str())).collect(),
         inst: inst.iter().map(|s| InstrumentNameExchange::new(s.as_str())).collect(),
         asset: asset.iter().map(|s| AssetNameExchange::new(s.as_str())).collect(),
     }
 }
+
+/// Every `ExchangeId` there is: an account event / order key / snapshot is this exchange's only if it carries exactly
+/// this exchange's id - not a sibling product of the same venue (`binance_futures_usd` for a `binance_spot` link), not
+/// one of the ids the library treats specially elsewhere (`Mock`, `Simulated`, `Other`).
+const ALL_IDS: [ExchangeId; 42] = {
+    use ExchangeId::*;
+    [
+        Other, Simulated, Mock, BinanceFuturesCoin, BinanceFuturesUsd, BinanceOptions, BinancePortfolioMargin, BinanceSpot, BinanceUs,
+        Bitazza, Bitfinex, Bitflyer, Bitget, Bitmart, BitmartFuturesUsd, Bitmex, Bitso, Bitstamp, Bitvavo, Bithumb, BybitPerpetualsUsd,
+        BybitSpot, Cexio, Coinbase, CoinbaseInternational, Cryptocom, Deribit, GateioFuturesBtc, GateioFuturesUsd, GateioOptions,
+        GateioPerpetualsBtc, GateioPerpetualsUsd, GateioSpot, Gemini, Hitbtc, Htx, Kraken, Kucoin, Liquid, Mexc, Okx, Poloniex,
+    ]
+};
 
 /// Second menu ("B", local to this module): the same three exchanges, spot only, but with the name shapes the
 /// C11 menu ("A") does not have: exchange names that differ between exchanges ONLY BY CASE (`BTCUSDT` /
@@ -184,9 +244,60 @@ fn menu_b() -> Vec<Def> {
     ]
 }
 
+/// Third menu ("L", local to this module): a LARGE collection - 310 spot instruments (110 / 100 / 100) over 72 assets
+/// (24 per exchange) on the three exchanges, so that global indices pass 255 and every exchange's own indices start
+/// far from 0. Okx writes its first 30 instruments exactly like BinanceSpot and shares its asset spellings; Kraken
+/// has its own spellings. It is swept as ONE configuration (every index, every name), not by subsets.
+fn menu_large() -> Vec<Def> {
+    use ExchangeId::*;
+    let spot = |ex: ExchangeId, internal: String, name: String, base: Asset, quote: Asset| -> Def {
+        Instrument::new(ex, internal.as_str(), name.as_str(), Underlying::new(base, quote), InstrumentQuoteAsset::UnderlyingQuote, InstrumentKind::Spot, None)
+    };
+    let pairs: Vec<(usize, usize)> = (0..24usize).flat_map(|i| ((i + 1)..24).map(move |j| (i, j))).collect();
+    let mut v = Vec::new();
+    for (ex, tag, count) in [(BinanceSpot, "b", 110usize), (Kraken, "k", 100), (Okx, "o", 100)] {
+        // instrument k of an exchange uses pair (7k mod 276): internal-name order differs from pair order
+        for k in 0..count {
+            let (i, j) = pairs[(k * 7) % pairs.len()];
+            let asset = |n: usize| match ex {
+                Kraken => Asset::new(format!("a{n:02}").as_str(), format!("XA{n:02}").as_str()),
+                _ => Asset::new(format!("a{n:02}").as_str(), format!("A{n:02}").as_str()),
+            };
+            let name = match ex {
+                BinanceSpot => format!("A{i:02}A{j:02}"),
+                Kraken => format!("A{i:02}/A{j:02}"),
+                _ if k < 30 => format!("A{i:02}A{j:02}"),
+                _ => format!("A{i:02}-A{j:02}"),
+            };
+            v.push(spot(ex, format!("i{k:03}.{tag}"), name, asset(i), asset(j)));
+        }
+    }
+    v
+}
+
 /// The menus this module sweeps: (tag used in replay cases, definitions).
 fn menus() -> Vec<(&'static str, Vec<Def>)> {
     vec![("A", menu()), ("B", menu_b())]
+}
+
+/// Pools of the large menu: (every name - for the map's lookups, which are linear; a sample of 24 definitions across
+/// the three exchanges incl. a spelling shared by BinanceSpot and Okx - for the combinatorial sweeps above the map).
+fn pools_large(menu: &[Def]) -> (Pools, Pools) {
+    let mut full = pools(menu);
+    let sample: Vec<Def> = menu.iter().enumerate().filter(|(k, _)| k % 13 == 0).map(|(_, d)| d.clone()).collect();
+    let deep = pools(&sample);
+    // near misses of the sampled names only (the full list would square the sweep for no new spelling shape)
+    full.inst_near = deep.inst_near.iter().filter(|n| !full.inst.contains(n)).cloned().collect();
+    full.asset_near = deep.asset_near.iter().filter(|n| !full.asset.contains(n)).cloned().collect();
+    (full, deep)
+}
+
+/// The large menu as one configuration x exchange `xp` (all layers; the manager layer with single requests only).
+fn eval_large(xp: usize) -> Option<Deep> {
+    let menu = menu_large();
+    let (full, deep) = pools_large(&menu);
+    let set: Vec<usize> = (0..menu.len()).collect();
+    eval_deep_with(&menu, &full, &deep, &set, xp, false)
 }
 
 /// The one comparison rule of this module. `want = Some(v)`: the input names entities of this exchange and must
@@ -240,7 +351,7 @@ fn check_map(truth: &Truth, ix: &IndexedInstruments, x: ExchangeId, pools: &Pool
         judge("exchange/index-to-id", want, map.find_exchange_id(ExchangeIndex(e)), || here(&format!("find_exchange_id({e})")), &mut out);
         *evals += 1;
     }
-    for y in EX.iter().chain([ExchangeId::Mock].iter()) {
+    for y in ALL_IDS.iter() {
         let want = (*y == x).then_some(xi);
         judge("exchange/id-to-index", want, map.find_exchange_index(*y), || here(&format!("find_exchange_index({y})")), &mut out);
         *evals += 1;
@@ -252,9 +363,9 @@ fn check_map(truth: &Truth, ix: &IndexedInstruments, x: ExchangeId, pools: &Pool
             || here(&format!("find_instrument_name_exchange({g}) [instrument {g} is {:?}]", truth.instruments.iter().find(|e| e.idx.index() == g).map(|e| (e.ex, e.name_ex.clone())))), &mut out);
         *evals += 1;
     }
-    for n in &pools.inst {
+    for n in pools.inst.iter().chain(&pools.inst_near) {
         let want = truth.inst(x, n.name());
-        judge("instrument/name-to-index", want, map.find_instrument_index(n), || here(&format!("find_instrument_index({n})")), &mut out);
+        judge("instrument/name-to-index", want, map.find_instrument_index(n), || here(&format!("find_instrument_index({:?})", n.name())), &mut out);
         *evals += 1;
     }
     // assets
@@ -264,9 +375,9 @@ fn check_map(truth: &Truth, ix: &IndexedInstruments, x: ExchangeId, pools: &Pool
             || here(&format!("find_asset_name_exchange({g}) [asset {g} is {:?}]", truth.assets.iter().find(|e| e.idx.index() == g).map(|e| (e.ex, e.name_ex.clone())))), &mut out);
         *evals += 1;
     }
-    for n in &pools.asset {
+    for n in pools.asset.iter().chain(&pools.asset_near) {
         let want = truth.asset(x, n.name());
-        judge("asset/name-to-index", want, map.find_asset_index(n), || here(&format!("find_asset_index({n})")), &mut out);
+        judge("asset/name-to-index", want, map.find_asset_index(n), || here(&format!("find_asset_index({:?})", n.name())), &mut out);
         *evals += 1;
     }
     // the name lists handed to the client at initialisation
@@ -394,15 +505,52 @@ fn check_indexer(truth: &Truth, ix: &IndexedInstruments, x: ExchangeId, map: &Ex
     }
     let ti = |n: &InstrumentNameExchange| truth.inst(x, n.name());
     let ta = |n: &AssetNameExchange| truth.asset(x, n.name());
-    for (k, a) in pools.asset.iter().enumerate() {
+    for (k, a) in pools.asset.iter().chain(&pools.asset_near).enumerate() {
         let want = ta(a).map(|i| balance(i, k as i64));
-        judge("inbound/balance", want, indexer.asset_balance(balance(a.clone(), k as i64)), || here(format!("asset_balance({a})")), &mut out);
+        judge("inbound/balance", want, indexer.asset_balance(balance(a.clone(), k as i64)), || here(format!("asset_balance({:?})", a.name())), &mut out);
         *evals += 1;
     }
-    for n in &pools.inst {
+    for n in pools.inst.iter().chain(&pools.inst_near) {
         let want = ti(n).map(trade);
-        judge("inbound/trade", want, indexer.trade(trade(n.clone())), || here(format!("trade({n})")), &mut out);
+        judge("inbound/trade", want, indexer.trade(trade(n.clone())), || here(format!("trade({:?})", n.name())), &mut out);
         *evals += 1;
+    }
+    // near-miss names under this exchange's own id: order key, and the account_event wrapper around a balance
+    for n in &pools.inst_near {
+        let want = ti(n).map(|i| key(xi, i, "k"));
+        judge("inbound/order-key", want, indexer.order_key(key(x, n.clone(), "k")), || here(format!("order_key({x}, {:?})", n.name())), &mut out);
+        *evals += 1;
+    }
+    for a in &pools.asset_near {
+        let want = ta(a).map(|i| AccountEvent { exchange: xi, kind: AccountEventKind::BalanceSnapshot(Snapshot(balance(i, 1))) });
+        let input = AccountEvent { exchange: x, kind: AccountEventKind::BalanceSnapshot(Snapshot(balance(a.clone(), 1))) };
+        judge("inbound/account-event", want, indexer.account_event(input), || here(format!("account_event({x}, balance {:?})", a.name())), &mut out);
+        *evals += 1;
+    }
+    // own names under EVERY exchange id there is (siblings of the same venue, the specially treated ids): only
+    // this exchange's id translates
+    let own_inst = truth.instruments.iter().find(|e| e.ex == x).map(|e| (e.idx, InstrumentNameExchange::new(e.name_ex.as_str())));
+    let own_asset = truth.assets.iter().find(|e| e.ex == x).map(|e| (e.idx, AssetNameExchange::new(e.name_ex.as_str())));
+    for y in ALL_IDS.iter().filter(|y| !ex_pool.contains(y)) {
+        if let Some((i, n)) = &own_inst {
+            judge("inbound/order-key", None, indexer.order_key(key(*y, n.clone(), "k")), || here(format!("order_key({y}, {n})")), &mut out);
+            let input = AccountEvent { exchange: *y, kind: AccountEventKind::Trade(trade(n.clone())) };
+            judge("inbound/account-event", None, indexer.account_event(input), || here(format!("account_event({y}, trade {n})")), &mut out);
+            // wrapper says this exchange, the order key inside says `y`
+            let input = AccountEvent { exchange: x, kind: AccountEventKind::OrderSnapshot(Snapshot(order(*y, n.clone(), "w", order_state(0, &pools.asset[0], &pools.inst[0])))) };
+            judge("inbound/account-event", None, indexer.account_event(input), || here(format!("account_event({x}, order snapshot keyed ({y}, {n}))")), &mut out);
+            let input = AccountSnapshot { exchange: *y, balances: vec![], instruments: vec![InstrumentAccountSnapshot { instrument: n.clone(), orders: vec![] }] };
+            judge("inbound/account-snapshot", None, indexer.snapshot(input), || here(format!("snapshot({y}, instruments [{n}])")), &mut out);
+            let _ = i;
+            *evals += 4;
+        }
+        if let Some((_, a)) = &own_asset {
+            let input = AccountEvent { exchange: *y, kind: AccountEventKind::BalanceSnapshot(Snapshot(balance(a.clone(), 1))) };
+            judge("inbound/account-event", None, indexer.account_event(input), || here(format!("account_event({y}, balance {a})")), &mut out);
+            let input = AccountSnapshot { exchange: *y, balances: vec![balance(a.clone(), 1)], instruments: vec![] };
+            judge("inbound/account-snapshot", None, indexer.snapshot(input), || here(format!("snapshot({y}, balances [{a}])")), &mut out);
+            *evals += 2;
+        }
     }
     for y in &ex_pool {
         let own_ex = *y == x;
@@ -650,7 +798,7 @@ fn drive_manager_seq(
     (log, events, panic)
 }
 
-fn check_manager(truth: &Truth, ix: &IndexedInstruments, x: ExchangeId, map: &ExecutionInstrumentMap, runs: &mut u64) -> Vec<Viol> {
+fn check_manager(truth: &Truth, ix: &IndexedInstruments, x: ExchangeId, map: &ExecutionInstrumentMap, pairs: bool, runs: &mut u64) -> Vec<Viol> {
     let mut out = Vec::new();
     let xi = truth.ex_index(x).unwrap();
     let rt = paused_rt();
@@ -743,8 +891,8 @@ fn check_manager(truth: &Truth, ix: &IndexedInstruments, x: ExchangeId, map: &Ex
             }
         }
     }
-    if !out.is_empty() {
-        return out; // the single-request runs already name the defect
+    if !out.is_empty() || !pairs {
+        return out; // the single-request runs already name the defect (or: large menu, single requests only)
     }
     // ---- two requests through ONE manager: every ordered pair of own instruments (incl. the same one twice) x
     // {open, cancel}^2 x {distinct client order ids, the same id} x {second request after the first was answered,
@@ -1135,6 +1283,8 @@ fn eval_map_layer(menu: &[Def], pools: &Pools, seq: &[usize], only: Option<usize
 #[derive(Default)]
 struct Deep {
     viols: Vec<(&'static str, Viol)>,
+    /// lookups of the map layer for this (set, exchange) (counted by the caller only for the large menu)
+    map_evals: u64,
     idx_evals: u64,
     mgr_runs: u64,
     app_evals: u64,
@@ -1152,12 +1302,18 @@ struct Deep {
 /// outbound `order_request` needs the map's index->name direction, the inbound kinds need name->index, the
 /// manager needs both indexer directions, `applied` needs the inbound direction.
 fn eval_deep(menu: &[Def], pools: &Pools, set: &[usize], xp: usize) -> Option<Deep> {
+    eval_deep_with(menu, pools, pools, set, xp, true)
+}
+
+/// `pools_map`: names swept through the map's lookups (linear); `pools`: names of the combinatorial sweeps of the
+/// layers above; `pairs`: also the two-request runs of the manager layer.
+fn eval_deep_with(menu: &[Def], pools_map: &Pools, pools: &Pools, set: &[usize], xp: usize, pairs: bool) -> Option<Deep> {
     let defs: Vec<&Def> = set.iter().map(|&i| &menu[i]).collect();
     let ix = build_indexed(set, menu).expect("harness: C11 index table builds");
     let truth = Truth::new(&defs, &ix);
     let x = EX[xp];
     let mut scratch = 0u64;
-    let (map_viols, map) = guarded(|| check_map(&truth, &ix, x, pools, &mut scratch))
+    let (map_viols, map) = guarded(|| check_map(&truth, &ix, x, pools_map, &mut scratch))
         .unwrap_or_else(|p| (vec![("C04/map/lookup-panics".into(), format!("map of {x}: {p}"))], None));
     let Some(map) = map else {
         // exchange not part of this set (or its map cannot be built: reported)
@@ -1185,6 +1341,7 @@ fn eval_deep(menu: &[Def], pools: &Pools, set: &[usize], xp: usize) -> Option<De
     let idx_viols = guarded(|| check_indexer(&truth, &ix, x, &map, pools, out_ok, in_ok, &mut n))
         .unwrap_or_else(|p| vec![("C04/inbound/indexer-panics".into(), format!("indexer of {x}: {p}"))]);
     d.idx_evals = n;
+    d.map_evals = scratch;
     if !out_ok {
         // not judged (the map layer already reported the cause); record what reaches the client end to end
         let rt = paused_rt();
@@ -1207,7 +1364,7 @@ fn eval_deep(menu: &[Def], pools: &Pools, set: &[usize], xp: usize) -> Option<De
     let in_clean = in_ok && !idx_viols.iter().any(|(sig, _)| sig.starts_with("C04/inbound/"));
     d.viols.extend(idx_viols.into_iter().map(|v| ("indexer", v)));
     if out_clean && in_clean {
-        d.viols.extend(check_manager(&truth, &ix, x, &map, &mut d.mgr_runs).into_iter().map(|v| ("manager", v)));
+        d.viols.extend(check_manager(&truth, &ix, x, &map, pairs, &mut d.mgr_runs).into_iter().map(|v| ("manager", v)));
     } else {
         d.gated += 1;
     }
@@ -1279,12 +1436,34 @@ pub fn run(ctx: &Ctx) -> Outcome {
         });
     }
 
+    // ---- the large menu: one configuration of 310 instruments, every exchange, every layer
+    let large_instruments = menu_large().len();
+    (0..EX.len()).into_par_iter().for_each(|xp| {
+        let Some(d) = eval_large(xp) else { return };
+        if !d.map_fingerprint.is_empty() {
+            distinct.add(&format!("L|{}", d.map_fingerprint));
+            deep_cases.fetch_add(1, Ordering::Relaxed);
+        }
+        for (layer, (sig, detail)) in d.viols {
+            ctx.violate(sig, detail, json!({"menu": "L", "layer": layer, "exchange": xp}));
+        }
+        map_evals.fetch_add(d.map_evals, Ordering::Relaxed);
+        configs.fetch_add(1, Ordering::Relaxed);
+        idx_evals.fetch_add(d.idx_evals, Ordering::Relaxed);
+        mgr_runs.fetch_add(d.mgr_runs, Ordering::Relaxed);
+        app_evals.fetch_add(d.app_evals, Ordering::Relaxed);
+        stream_runs.fetch_add(d.stream_runs, Ordering::Relaxed);
+        gated.fetch_add(d.gated, Ordering::Relaxed);
+        consequences.lock().unwrap().extend(d.consequences);
+    });
+
     let total = map_evals.load(Ordering::Relaxed) + idx_evals.load(Ordering::Relaxed) + mgr_runs.load(Ordering::Relaxed) + app_evals.load(Ordering::Relaxed) + stream_runs.load(Ordering::Relaxed);
     Outcome {
         level: "exploration",
         coverage: json!({
             "evaluations": total,
-            "menus": 2,
+            "menus": 3,
+            "large_menu_instruments": large_instruments,
             "map_configurations": configs.load(Ordering::Relaxed),
             "map_lookups": map_evals.load(Ordering::Relaxed),
             "max_permutation_size": max_perm,
@@ -1297,16 +1476,17 @@ pub fn run(ctx: &Ctx) -> Outcome {
             "end_to_end_consequences_where_manager_layer_was_not_judged": consequences.lock().unwrap().iter().cloned().collect::<Vec<_>>(),
             "distinct_nontrivial": distinct.len(),
             "exhaustive": true,
-            "rule": "for each of two 8-definition menus (A: C11's - spot/perpetual/future/option, settlement-only and unit-only assets, shared names; B: names that differ between exchanges only by case, mixed case, prefix names, four instruments on one exchange): every insertion order of every subset (<= max_permutation_size) x every exchange's ExecutionInstrumentMap x every global index / pooled name through find_*; every distinct subset x exchange through AccountEventIndexer (outbound order_request for every (exchange index, instrument index); inbound kinds x every pooled exchange id / instrument name / asset name, incl. full snapshots whose wrapper / snapshot / inner order keys disagree), through ExecutionManager::run (one request per fresh manager for every instrument index; every ordered pair of requests for own instruments through ONE manager: {open,cancel}^2 x {same, distinct client order id} x {sequential, queued together}) and ExecutionManager::init's account stream with a recording / scripted stub client (paused runtime, manual polling) and through EngineState::update_from_account",
+            "rule": "a large collection (310 spot instruments 110/100/100 over 72 assets on the three exchanges, global indices beyond 255, one spelling shared by two exchanges) as one configuration through every layer (every index and every name through the map, a 24-definition sample of names through the combinatorial sweeps, single requests through the manager); and for each of two 8-definition menus (A: C11's - spot/perpetual/future/option, settlement-only and unit-only assets, shared names; B: names that differ between exchanges only by case, mixed case, prefix names, four instruments on one exchange): every insertion order of every subset (<= max_permutation_size) x every exchange's ExecutionInstrumentMap x every global index / pooled name / near-miss spelling of a pooled name (case, separators, blanks, one character more or less) / every ExchangeId there is through find_*; every distinct subset x exchange through AccountEventIndexer (outbound order_request for every (exchange index, instrument index); inbound kinds x every pooled exchange id / instrument name / asset name, the single-name kinds also x near-miss spellings and own names under every ExchangeId there is, incl. full snapshots whose wrapper / snapshot / inner order keys disagree), through ExecutionManager::run (one request per fresh manager for every instrument index; every ordered pair of requests for own instruments through ONE manager: {open,cancel}^2 x {same, distinct client order id} x {sequential, queued together}) and ExecutionManager::init's account stream with a recording / scripted stub client (paused runtime, manual polling) and through EngineState::update_from_account",
             "samples": samples.take().into_iter().sorted_by_key(|v| v.to_string()).take(6).collect::<Vec<_>>(),
         }),
         assumptions: vec![
             "the engine index of an entity is the one IndexedInstruments assigns (C11)".into(),
-            "an exchange names an instrument / asset one way; exchange names may repeat across exchanges; a name is an opaque case-sensitive key (a name that differs from an exchange's own name only by case is not that exchange's name)".into(),
+            "an exchange names an instrument / asset one way; exchange names may repeat across exchanges; a name is an opaque case-sensitive key (a name that differs from an exchange's own name only by case, by a separator, by surrounding blanks or by one character is not that exchange's name)".into(),
+            "an event / key / snapshot is an exchange's only under exactly that exchange's ExchangeId: a sibling product id of the same venue, Mock, Simulated or Other is another exchange".into(),
             "the fate of an untranslatable request (error, panic, drop) is not prescribed; only that the client never receives it".into(),
             "a client order id identifies an order only together with its instrument (OrderKey): two requests with the same id for two instruments are two orders".into(),
             "the order in which the client sees two queued requests and the order of the two answers are not prescribed (compared as multisets)".into(),
-            "two menus of 8 definitions over 3 exchanges; stub client answers immediately (timeouts are C07's subject)".into(),
+            "two menus of 8 definitions over 3 exchanges swept by subsets, one menu of 310 definitions swept as a whole; stub client answers immediately (timeouts are C07's subject)".into(),
         ],
     }
 }
@@ -1314,6 +1494,16 @@ pub fn run(ctx: &Ctx) -> Outcome {
 pub fn replay(ctx: &Ctx, case: &Value) {
     install_quiet_hook();
     let tag = case["menu"].as_str().unwrap_or("A");
+    if tag == "L" {
+        let xp = case["exchange"].as_u64().unwrap_or(0) as usize;
+        let layer = case["layer"].as_str().unwrap_or("");
+        for (l, (sig, detail)) in eval_large(xp).map(|d| d.viols).unwrap_or_default() {
+            if l == layer {
+                ctx.violate(sig, detail, case.clone());
+            }
+        }
+        return;
+    }
     let Some((_, menu)) = menus().into_iter().find(|(t, _)| *t == tag) else {
         eprintln!("MACHINERY: unknown C04 replay menu {tag:?}");
         std::process::exit(2)
